@@ -194,3 +194,20 @@ pub fn guard<T>(f: impl FnOnce() -> T + std::panic::UnwindSafe) -> Option<T> {
 pub fn silence_panics() {
     std::panic::set_hook(Box::new(|_| {}));
 }
+
+/// a `Read + Seek` that hands over at most `per` bytes per `read` call — legal for any reader, and what a small
+/// `BufReader` or a socket does; decoders that call `read` where they mean `read_exact` show up here
+pub struct Dribble { pub inner: std::io::Cursor<Vec<u8>>, pub per: usize }
+impl Dribble { pub fn new(b: &[u8], per: usize) -> Self { Dribble { inner: std::io::Cursor::new(b.to_vec()), per } } }
+impl std::io::Read for Dribble { fn read(&mut self, buf: &mut [u8]) -> std::io::Result<usize> { let n = buf.len().min(self.per); self.inner.read(&mut buf[..n]) } }
+impl std::io::Seek for Dribble { fn seek(&mut self, p: std::io::SeekFrom) -> std::io::Result<u64> { self.inner.seek(p) } }
+
+/// a `Write + Seek` that accepts at most `per` bytes per `write` call — legal for any writer; encoders that call
+/// `write` where they mean `write_all` show up here
+pub struct DribbleW { pub inner: std::io::Cursor<Vec<u8>>, pub per: usize }
+impl DribbleW { pub fn new(per: usize) -> Self { DribbleW { inner: std::io::Cursor::new(vec![]), per } } }
+impl std::io::Write for DribbleW {
+    fn write(&mut self, buf: &[u8]) -> std::io::Result<usize> { let n = buf.len().min(self.per); self.inner.write(&buf[..n]) }
+    fn flush(&mut self) -> std::io::Result<()> { Ok(()) }
+}
+impl std::io::Seek for DribbleW { fn seek(&mut self, p: std::io::SeekFrom) -> std::io::Result<u64> { self.inner.seek(p) } }
